@@ -35,6 +35,7 @@ def run(ctx, chk):
     from .c08 import r5 as recovery_rule
     recovery_rule(ctx, chk, "C10.R4")
     stated_parts_rule(ctx, chk, "C10.R5")
+    nospace_complete_formats_rule(ctx, chk, "C10.R6")
 
 
 def r1(ctx, chk):
@@ -94,7 +95,10 @@ def r1(ctx, chk):
                 (pos if q else neg).add(" ".join(ast.unparse(a).split()))
         detail.append("raise under %s, not %s" % (sorted(pos), sorted(neg)))
         if pos == {st + ".STRICT_PARSING", miss}:
-            strict_ok = True
+            # strictness must not depend on anything else being off (in particular not on REQUIRE_PARTS being empty)
+            strict_ok = not neg
+            if neg:
+                detail.append("the STRICT_PARSING rejection is only reached when %s is false" % sorted(neg))
         elif st + ".REQUIRE_PARTS" in pos and miss in pos and len(pos) == 3 and not any("REQUIRE" in x for x in neg):
             ev = (pos - {st + ".REQUIRE_PARTS", miss}).pop()
             defs = [n for n in iter_own_nodes(f.node) if isinstance(n, ast.Assign) and len(n.targets) == 1 and ast.unparse(n.targets[0]) == ev]
@@ -374,3 +378,26 @@ def stated_parts_rule(ctx, chk, rule):
                key={"function": f.key, "construct": "correction " + " ".join(ast.unparse(s).split())[:50]},
                file=f.file, function=f.qual, line=s.lineno, text=" ".join(ast.unparse(s).split())[:100])
     chk.floor(rule, n, 6, "date-moving corrections in _correct_for_time_frame")
+
+
+
+def nospace_complete_formats_rule(ctx, chk, rule):
+    """the no-spaces parser keeps a match whose year has fewer than four digits aside (`ambiguous_date`) and returns it at the end WITHOUT
+    passing the strictness filter - harmless exactly as long as every date format of its tables states day, month and year, so that the
+    value kept aside never lacks a part.  (Time-only formats give year 1900 and go through the filter.)"""
+    NS = ctx.ix.cls("dateparser.parser:_no_spaces_parser")
+    n = 0
+    for tbl in ("_dateformats", "_preferred_formats", "_preferred_formats_ordered_8_digit"):
+        lit = NS.attrs.get(tbl)
+        try:
+            fmts = ast.literal_eval(lit)
+        except Exception:
+            raise AnalysisError(rule, "_no_spaces_parser.%s is not a literal list" % tbl)
+        for fmt in fmts:
+            n += 1
+            missing = [p_ for p_, ds in (("day", ("%d",)), ("month", ("%m",)), ("year", ("%Y", "%y"))) if not any(d in fmt for d in ds)]
+            chk.ob(rule, "_no_spaces_parser.%s: %s states day, month and year" % (tbl, fmt), not missing,
+                   "the format lacks %s: a digit string it matches with a year below 1000 ('003002') is kept as the ambiguous candidate and returned "
+                   "without the STRICT_PARSING / REQUIRE_PARTS check" % missing,
+                   key={"table": tbl, "construct": fmt}, file="dateparser/parser.py", function="_no_spaces_parser." + tbl, line=None)
+    chk.floor(rule, n, 18, "date formats of the no-spaces parser")
